@@ -23,9 +23,10 @@ class Undecided(Exception):
 
 class SV:
     """symbolic scalar / opaque value.  kind in {'int','real','bool','val'}"""
-    __slots__ = ('z', 'kind', 'app', 'ratio', 'tag')
+    __slots__ = ('z', 'kind', 'app', 'ratio', 'tag', 'shape')
 
-    def __init__(self, z, kind, app=None, ratio=None, tag=None):
+    def __init__(self, z, kind, app=None, ratio=None, tag=None, shape=None):
+        self.shape = shape      # tuple of python ints / z3 Int exprs for ndarray-like opaque values
         self.z = z
         self.kind = kind
         self.app = app          # (fname, [engine args]) when created by an uninterpreted application
